@@ -27,6 +27,8 @@ ASSUMPTIONS = [
     "noisy expectation values: decided as (a) the density matrix handed to the sampler for each term equals the reference "
     "mixed state after the (noisy) basis rotation and (b) the estimate is the documented arithmetic of every sample sequence",
     "tolerance 1e-9 on density matrices (complex128 simulator)",
+    "histories: every sequence of <= 4 (5 thorough) operations over {4 add_quantum_error calls, simulate on a shared backend, simulate on a "
+    "new backend, translate} on one live NoiseModel; after each use the state must be that of the model as it currently is",
 ]
 PI = math.pi
 TOL = 1e-9
@@ -145,6 +147,90 @@ def check_state(case, acc):
             if np.linalg.norm(np.asarray(infos[0]["state"]) - np.outer(psi, psi.conj())) > TOL:
                 bad("simulate", "zero-rates-differ-from-noiseless", {})
         acc.out(tuple(sorted(infos[0]["probs"])))
+
+
+HIST_ADDS = [("X", "pauli", [0.1, 0.0, 0.0]), ("CNOT", "depol", 0.1), ("H", "depol", 1.0 / 3.0), ("X", "depol", 0.1)]
+HIST_WORD = [G("X", [0]), G("H", [1]), G("CNOT", [1], [0]), G("X", [0])]
+HIST_OPS = ["add0", "add1", "add2", "add3", "use-shared-backend", "use-new-backend", "translate"]
+
+
+def check_history(case, acc):
+    """E2-style: one live NoiseModel (and one live backend built on it) under every history of add_quantum_error / simulate /
+    translate operations; after every use the simulated state must be that of the model as it is NOW (errors added after an
+    earlier use included)."""
+    from tangelo.linq import get_backend, translate_circuit
+    from tangelo.linq.noisy_simulation import NoiseModel
+    import cirq
+    hist = case["history"]
+    n = width(HIST_WORD)
+    c = mk_circ(HIST_WORD, n)
+    nm = NoiseModel()
+    shared = {}
+    model = {}
+
+    def handed_state(be):
+        def run(ch):
+            be.cirq = seams.CirqProxy(ch)
+            be.simulate(c)
+            return 0
+        ch = choicetree.Chooser()
+        run(ch)
+        return np.asarray(ch.infos[0]["state"])
+
+    for step, op in enumerate(hist):
+        acc.transitions += 1
+        if op.startswith("add"):
+            name, kind, par = HIST_ADDS[int(op[3:])]
+            dup = any(k == kind for k, _ in model.get(name, []))
+            try:
+                nm.add_quantum_error(name, kind, par)
+            except Exception as e:
+                if not dup:
+                    acc.violation("history/add_quantum_error/valid-specification-rejected", case, {"step": step, "err": repr(e)[:200]},
+                                  group="history/add_quantum_error")
+                continue
+            if dup:
+                acc.violation("history/add_quantum_error/same-type-twice-accepted", case, {"step": step}, group="history/add_quantum_error")
+                return
+            model.setdefault(name, []).append((kind, par))
+            continue
+        acc.ev()
+        rho = DM.run(HIST_WORD, n, {k: list(v) for k, v in model.items()})
+        try:
+            if op == "translate":
+                cc = translate_circuit(c, "cirq", output_options={"noise_model": nm})
+                got = cirq.DensityMatrixSimulator(dtype=np.complex128).simulate(cc).final_density_matrix
+            elif op == "use-new-backend":
+                got = handed_state(get_backend("cirq", n_shots=1, noise_model=nm))
+            else:
+                if "be" not in shared:
+                    shared["be"] = get_backend("cirq", n_shots=1, noise_model=nm)
+                got = handed_state(shared["be"])
+        except Exception as e:
+            acc.violation(f"history/{op}/exception", case, {"step": step, "err": repr(e)[:300]}, group=f"history/{op}/exception")
+            return
+        d = float(np.linalg.norm(np.asarray(got).reshape(rho.shape) - rho, 2))
+        if d > TOL:
+            acc.violation(f"history/{op}/state-is-not-that-of-the-current-noise-model", case,
+                          {"step": step, "distance": d, "model_now": {k: [list(x) for x in v] for k, v in model.items()}},
+                          group=f"history/{op}/stale-noise-model")
+            return
+    acc.out(("history", tuple(sorted((k, tuple(x[0] for x in v)) for k, v in model.items()))))
+    if any(o.startswith("add") for o in hist[1:]) and not hist[0].startswith("add"):
+        acc.nt(("history", tuple(hist)))
+    elif sum(1 for i, o in enumerate(hist) if o.startswith("add") and any(not h.startswith("add") for h in hist[:i])):
+        acc.nt(("history", tuple(hist)))
+
+
+def histories(tier):
+    L = 4 if tier == "quick" else 5
+    for l in range(2, L + 1):
+        for h in itertools.product(HIST_OPS, repeat=l):
+            if h[-1].startswith("add"):
+                continue            # a history ending with an addition observes nothing new
+            if not any(o.startswith("add") for o in h):
+                continue
+            yield list(h)
 
 
 OBS = [[("Z0", 1.0)], [("X0", 1.0)], [("Y1", -0.5)], [("Z0 Z1", 1.0)], [("X0 X1", 1.0), ("Z1", 0.5)], [("Y0 Z1", 1.0), ("", 0.25)]]
@@ -321,6 +407,8 @@ NSH = 64
 
 def shards(tier, seed):
     sh = [{"kind": "malformed"}]
+    for i in range(16):
+        sh.append({"kind": "history", "part": i, "tier": tier})
     for i in range(NSH):
         sh.append({"kind": "state", "part": i, "tier": tier})
         sh.append({"kind": "expval", "part": i, "tier": tier})
@@ -334,6 +422,14 @@ def run_shard(sh):
         acc.sample({"kind": "malformed", "label": "pauli-sum-above-1"})
         return acc
     tier = sh["tier"]
+    if sh["kind"] == "history":
+        for i, h in enumerate(histories(tier)):
+            if i % 16 == sh["part"]:
+                acc.states += 1
+                check_history({"kind": "history", "history": h}, acc)
+        if sh["part"] == 0:
+            acc.sample({"kind": "history", "history": ["add0", "use-shared-backend", "add1", "use-shared-backend"]})
+        return acc
     W = words(tier)
     k = 0
     for wi, word in enumerate(W):
@@ -375,6 +471,8 @@ def replay_case(case):
     elif k == "expval":
         case = dict(case, obs=[tuple(o) for o in case["obs"]])
         check_expval(case, acc)
+    elif k == "history":
+        check_history(case, acc)
     else:
         check_malformed(acc)
     return acc
